@@ -28,7 +28,13 @@ def r1_transparent(R) -> None:
         q = f'{T}.{m}'
         f = Fn(R, q)
         calls = f.nodes_with(lambda x, m=m: is_super_call(x, m))
-        if not R.require(q, len(calls), f'super().{m}(...)', fi=f.fi, pred=lambda x, m=m: is_super_call(x, m)):
+        if spec['returns'] and not any(r_.ast.value is not None for r_ in f.returns()):
+            R.violation(q, 'wrapper-returns-nothing', f'`{m}` has no `return <value>`: whatever the base method returns (the solved flag) is dropped and every caller '
+                        f'(solve(), solve_period()) receives None', where=f.fi.where)
+            continue
+        # a candidate: any call that mentions super() (the base method reached through a helper, getattr, a bound local)
+        if not R.require(q, len(calls), f'super().{m}(...)', fi=f.fi,
+                         pred=lambda x, m=m: isinstance(x, ast.Call) and any(isinstance(y, ast.Call) and isinstance(y.func, ast.Name) and y.func.id == 'super' for y in ast.walk(x))):
             continue
         R.check(len(calls) == 1, q, 'one-super-call', 'the base method is called once', f'{len(calls)} calls of super().{m}()', where=f.where(calls[0]))
         n = calls[0]
